@@ -98,41 +98,10 @@ func TestPropRequests(t *testing.T) {
 		}
 		// per-request: predicted meta, pre-responses, unmarshalable -> internalError
 		for i, ob := range r.Obs {
-			rq := &c.Reqs[i]
-			d := reqcase.Route(&c, rq)
-			if d.Probe || d.Marker == "" || ob.Delivered != 1 || len(ob.Resp) != 1 {
-				continue
-			}
-			o := script.Predict(rq.Script, reqcase.Ctx(&c, rq, d))
-			var p struct {
-				Error *struct{ Code string } `json:"error"`
-				Meta  *struct {
-					Status int                 `json:"status"`
-					Header map[string][]string `json:"header"`
-				} `json:"meta"`
-			}
-			_ = json.Unmarshal(ob.Resp[0], &p)
-			if o.Unmarshalable {
-				unm = true
-				if p.Error == nil || p.Error.Code != res.CodeInternalError {
-					t.Fatalf("request %s script %s: unmarshalable handler value must give system.internalError, got %s", rq.Subject, rq.Script, ob.Resp[0])
-				}
-			}
-			wantMeta := o.Status != 0 || len(o.Header) > 0
-			if wantMeta != (p.Meta != nil) {
-				t.Fatalf("request %s script %s: meta present=%v, expected %v (status %d header %v): %s", rq.Subject, rq.Script, p.Meta != nil, wantMeta, o.Status, o.Header, ob.Resp[0])
-			}
-			if wantMeta {
-				if p.Meta.Status != o.Status || (len(o.Header) > 0 || len(p.Meta.Header) > 0) && !reflect.DeepEqual(p.Meta.Header, o.Header) {
-					t.Fatalf("request %s script %s: meta %+v, expected status %d header %v", rq.Subject, rq.Script, *p.Meta, o.Status, o.Header)
-				}
-			}
-			var pre []string
-			for _, b := range ob.Pre {
-				pre = append(pre, string(b))
-			}
-			if fmt.Sprint(pre) != fmt.Sprint(o.PreResponses) {
-				t.Fatalf("request %s script %s: pre-responses %q, expected %q", rq.Subject, rq.Script, pre, o.PreResponses)
+			m, u := checkReq(&c, &c.Reqs[i], ob)
+			unm = unm || u
+			if m != "" {
+				t.Fatalf("%s", m)
 			}
 		}
 		ev.Case(nt || unm, evid.Hash(c.String()), "request-case")
@@ -147,6 +116,130 @@ func TestPropRequests(t *testing.T) {
 				return map[string]interface{}{"case": c, "published": pubs}
 			})
 		}
+	})
+}
+
+// checkReq compares one request's response meta, pre-responses and marshal-failure
+// mapping with the script model; it returns a violation and whether the case had an
+// unmarshalable value.
+func checkReq(c *reqcase.Case, rq *reqcase.ReqSpec, ob reqcase.Obs) (string, bool) {
+	unm := false
+	d := reqcase.Route(c, rq)
+	if d.Probe || d.Marker == "" || ob.Delivered != 1 || len(ob.Resp) != 1 {
+		return "", false
+	}
+	o := script.Predict(rq.Script, reqcase.Ctx(c, rq, d))
+	var p struct {
+		Error *struct{ Code string } `json:"error"`
+		Meta  *struct {
+			Status int                 `json:"status"`
+			Header map[string][]string `json:"header"`
+		} `json:"meta"`
+	}
+	_ = json.Unmarshal(ob.Resp[0], &p)
+	if o.Unmarshalable {
+		unm = true
+		if p.Error == nil || p.Error.Code != res.CodeInternalError {
+			return fmt.Sprintf("request %s script %s: unmarshalable handler value must give system.internalError, got %s", rq.Subject, rq.Script, ob.Resp[0]), unm
+		}
+	}
+	wantMeta := o.Status != 0 || len(o.Header) > 0
+	if wantMeta != (p.Meta != nil) {
+		return fmt.Sprintf("request %s script %s: meta present=%v, expected %v (status %d header %v): %s", rq.Subject, rq.Script, p.Meta != nil, wantMeta, o.Status, o.Header, ob.Resp[0]), unm
+	}
+	if wantMeta {
+		if p.Meta.Status != o.Status || (len(o.Header) > 0 || len(p.Meta.Header) > 0) && !reflect.DeepEqual(p.Meta.Header, o.Header) {
+			return fmt.Sprintf("request %s script %s: meta %+v, expected status %d header %v", rq.Subject, rq.Script, *p.Meta, o.Status, o.Header), unm
+		}
+	}
+	var pre []string
+	for _, b := range ob.Pre {
+		pre = append(pre, string(b))
+	}
+	if fmt.Sprint(pre) != fmt.Sprint(o.PreResponses) {
+		return fmt.Sprintf("request %s script %s: pre-responses %q, expected %q", rq.Subject, rq.Script, pre, o.PreResponses), unm
+	}
+	return "", unm
+}
+
+// TestPropConcurrentRequests: the same message validator and per-request model on a
+// concurrent batch (several workers, handlers running in parallel on different
+// resources); scripts are prefixed with extra Timeout calls of different durations so
+// that pre-responses of different requests are published at the same time.
+func TestPropConcurrentRequests(t *testing.T) {
+	rapid.Check(t, func(t *rapid.T) {
+		c := reqcase.Case{Name: "svc", Workers: rapid.SampledFrom([]int{2, 4, 16}).Draw(t, "workers")}
+		c.Handlers = reqcase.GenHandlers().Draw(t, "handlers")
+		for i := range c.Handlers {
+			c.Handlers[i].Group = ""
+		}
+		nshape := rapid.IntRange(2, 8).Draw(t, "nshape")
+		var shapes []reqcase.ReqSpec
+		for i := 0; i < nshape; i++ {
+			rq := reqcase.GenRequest(c.Name, c.Handlers, "").Draw(t, "shape")
+			if !cidOK(&rq) {
+				var s script.Script
+				for _, a := range rq.Script {
+					if a.Op != "tokenevent" {
+						s = append(s, a)
+					}
+				}
+				rq.Script = s
+			}
+			nto := rapid.IntRange(0, 4).Draw(t, "ntimeouts")
+			var pre script.Script
+			for k := 0; k < nto; k++ {
+				pre = append(pre, script.Act{Op: "timeout", N: rapid.SampledFrom([]int{0, 7, 45, 300, 1234, 56789, 86400000}).Draw(t, "ms")})
+			}
+			rq.Script = append(pre, rq.Script...)
+			shapes = append(shapes, rq)
+		}
+		n := rapid.IntRange(8, 150).Draw(t, "nreq")
+		for i := 0; i < n; i++ {
+			rq := shapes[rapid.IntRange(0, nshape-1).Draw(t, "which")]
+			if rq.Fields == nil {
+				continue
+			}
+			cp := map[string]json.RawMessage{}
+			for k, v := range rq.Fields {
+				cp[k] = v
+			}
+			rq.Fields = cp
+			c.Reqs = append(c.Reqs, rq)
+		}
+		if len(c.Reqs) == 0 {
+			return
+		}
+		reqcase.TagQueries(&c)
+		r := reqcase.RunConcurrent(&c)
+		if r.StartErr != nil || r.WaitErr != nil {
+			t.Fatalf("run: %v %v", r.StartErr, r.WaitErr)
+		}
+		replies := map[string]protoval.ReqInfo{}
+		for i, ob := range r.Obs {
+			replies[ob.Reply] = protoval.ReqInfo{IsHTTP: string(c.Reqs[i].Fields["isHttp"]) == "true"}
+		}
+		for _, e := range r.Log {
+			if e.Kind == "pub" && strings.HasPrefix(e.Subject, "_INBOX.reply.") {
+				if _, ok := replies[e.Subject]; !ok {
+					replies[e.Subject] = protoval.ReqInfo{}
+				}
+			}
+		}
+		msg, nt := validateLog(r.Log, replies)
+		if msg != "" {
+			t.Fatalf("%s\nhandlers: %+v", msg, c.Handlers)
+		}
+		npre := 0
+		for i, ob := range r.Obs {
+			m, _ := checkReq(&c, &c.Reqs[i], ob)
+			if m != "" {
+				t.Fatalf("concurrent batch of %d (workers %d): %s", len(c.Reqs), c.Workers, m)
+			}
+			npre += len(ob.Pre)
+		}
+		ev.Case(nt || npre >= 4, evid.Hash(c.String()), "concurrent-batch")
+		ev.Add("concurrent-pre-responses", int64(npre))
 	})
 }
 
